@@ -405,6 +405,7 @@ def run(ctx):
         ctx.sample(s)
     repo_models(ctx, home)
     fixed_width_record_scenarios(ctx, home)
+    imported_record_scenario(ctx, home)
     cxx.prune_cache()
 
 
@@ -510,6 +511,43 @@ def fixed_width_record_scenarios(ctx, home):
                     bad = True
         if not bad:
             shutil.rmtree(base, ignore_errors=True)
+
+
+def imported_record_scenario(ctx, home):
+    """the record that changed since v0 is defined in an imported package (the previous version imports the previous version of that package)"""
+    def lib(fields, d):
+        return Pkg("Lib", [Rec("Pt", fields)], [], [], d)
+    f = lambda n: (n, P("float32"))
+    lib_old, lib_new = lib([f("x"), f("y"), f("z"), ("n", P("string"))], "lib_v0"), lib([f("x"), f("y"), ("n", P("string"))], "lib")
+    proto = lambda: Proto("Evo", [("p", N("Pt", (), "Lib")), ("s", S(N("Pt", (), "Lib"))), ("end", P("int32"))])
+    app_old = Pkg("App", [proto()], [lib_old], [], "app_v0")
+    app_new = Pkg("App", [proto()], [lib_new], [("v0", app_old)], "app")
+    base = os.path.join(ctx.workdir, "cases", "imported_record")
+    shutil.rmtree(base, ignore_errors=True)
+    common.write_tree(base, emit.package_files(app_new, None, emit.default_outputs("../out_new", python=False, cpp_opts=cxx.cpp_gen_options({"generateNDJson": False}))))
+    common.write_tree(os.path.join(base, "solo"), emit.package_files(app_old, None, emit.default_outputs("../out_old", python=False, cpp_opts=cxx.cpp_gen_options({"generateNDJson": False}))))
+    p1 = cli.run_cli("generate", os.path.join(base, app_new.dir), home)
+    p0 = cli.run_cli("generate", os.path.join(base, "solo", app_old.dir), home)
+    ctx.ev(2)
+    ctx.case(("imported-record",))
+    if p1.rc != 0 or p0.rc != 0:
+        ctx.violation("rejected:imported-record-evolution", "removing a field of an imported record rejected: %s" % cli.clean(p1.stderr + p0.stderr)[:300], {"case_dir": base})
+        return
+    try:
+        exe_new = cxx.build(os.path.join(base, "out_new/cpp"), "plain")
+    except cxx.CompileError as e:
+        errs = re.findall(r"^[^\n]*error:[^\n]*", str(e), re.M)
+        ctx.violation("cpp-compile-failed:evolution-of-imported-record", "the compatibility code generated for an accepted change of an imported record does not compile: %s" % [x[-160:] for x in errs[:2]], {"case_dir": base})
+        return
+    lit = lambda path: re.search(r'std::string EvoWriterBase::schema_ = R"\((.*?)\)";', open(path).read(), re.S).group(1)
+    sch_old, sch_new = lit(os.path.join(base, "solo/out_old/cpp/protocols.cc")), lit(os.path.join(base, "out_new/cpp/protocols.cc"))
+    co, cn = Codec(app_old), Codec(app_new)
+    po, pn = app_old.find("Evo"), app_new.find("Evo")
+    vo = values.ValueGen(co, rng("C05imp"), quiet_nan_only=True, max_len=4).steps(po, stream_len=3)
+    pr = cxx.run_driver(exe_new, ["Evo", "bin", "bin"], co.encode_stream(po, sch_old, vo), "plain")
+    ctx.ev()
+    if judge(ctx, cn, pn, conv_protocol(co, po, cn, pn, vo), pr, sch_new, "imported record changed since v0: v0 stream read by the newest reader", {"case_dir": base}, "read-old"):
+        shutil.rmtree(base, ignore_errors=True)
 
 
 def repo_models(ctx, home):
